@@ -44,6 +44,8 @@ def generate(seed, tier):
             if label in ('c01', 'c02', 'c03', 'c12') and i % 3 == 0:
                 # the asynchronous dispatcher serving PLAIN functions against the synchronous one
                 cases.append({'src': label, 'c': c, 'b': 'plain'})
+            if label in ('c01', 'c02', 'c03', 'c12') and i % 3 == 1:
+                cases.append({'src': label, 'c': c, 'b': 'wrapped'})
     sample(c01, 'c01')
     sample(c02, 'c02')
     sample(c03, 'c03')
